@@ -52,6 +52,7 @@ type casPlan struct {
 	Workers    int               `json:"workers"`
 	Resize     int               `json:"resize_to,omitempty"`      // >0: the pool of the running processor is resized (without waiting) before the events arrive
 	Settle     bool              `json:"resize_settled,omitempty"` // ... after its workers have gone to sleep
+	ResizeAt   int               `json:"resize_at,omitempty"`      // >0: the resize happens that many simulated ns after the clients started (events queued / in flight)
 	FailFirst  bool              `json:"fail_first"`
 	NKinds     int               `json:"kinds"`
 	Rules      []casRule         `json:"rules"`
@@ -86,6 +87,9 @@ func casGen(r *simrt.RNG, tier string) interface{} {
 	if r.Bool(0.12) {
 		p.Resize = 1 + r.Intn(p.Workers+1)
 		p.Settle = r.Bool(0.6)
+		if r.Bool(0.5) {
+			p.Settle, p.ResizeAt = false, 1+r.Intn(40)
+		}
 	}
 	p.ToggleFF = r.Bool(0.15)
 	p.NKinds = 2 + r.Intn(5)
@@ -130,7 +134,7 @@ func casGen(r *simrt.RNG, tier string) interface{} {
 				for c := 0; c < nc; c++ {
 					ch := casChild{Kind: k + 1 + r.Intn(depthLeft(k)), Prio: r.Intn(4), Deferred: r.Bool(0.12)}
 					if widePrio {
-						ch.Prio = r.Intn(9)
+						ch.Prio = r.Intn(9) - 2 // child monitors may carry any integer, also -1
 					}
 					ru.Children = append(ru.Children, ch)
 				}
@@ -321,7 +325,7 @@ func casShrink(pi interface{}) []interface{} {
 	}
 	if p.Resize > 0 {
 		q := clone()
-		q.Resize, q.Settle = 0, false
+		q.Resize, q.Settle, q.ResizeAt = 0, false, 0
 		out = append(out, q)
 	}
 	if p.ResetCycle {
@@ -536,7 +540,13 @@ func (st *casState) sampleHPAtomic(e *casEvent, m engine.Monitor) {
 	hp := rm.HighestPriority()
 	st.hpSamples++
 	own := e.monPrio
-	if hp == -1 {
+	minusOne := false // -1 is also a legal priority of a child monitor
+	for _, x := range st.events {
+		if x.root == e.root && x.monPrio == -1 {
+			minusOne = true
+		}
+	}
+	if hp == -1 && !minusOne {
 		simrt.Fail("oracle:highest-priority", "hp/minus-one-while-active",
 			"HighestPriority() = -1 sampled inside an action of event %d whose monitor (priority %d) is active", e.id, own)
 	}
@@ -561,14 +571,14 @@ func (st *casState) sampleHPAtomic(e *casEvent, m engine.Monitor) {
 	// exact value when nobody else is in the middle of activating or finishing a
 	// monitor: one worker (the sampler) and no AddEvent call in progress
 	if st.p.Workers == 1 && st.p.Resize <= 1 && st.inAdd[e.root] == 0 {
-		want := -1
+		want, found := -1, false
 		for _, x := range st.events {
 			if x.root != e.root || x.mon == nil || x.skipped {
 				continue
 			}
 			if x.mon.IsActivated() && !isFinished(x.mon) {
-				if want == -1 || x.monPrio < want {
-					want = x.monPrio
+				if !found || x.monPrio < want {
+					want, found = x.monPrio, true
 				}
 			}
 		}
@@ -671,7 +681,7 @@ func casRun(p *casPlan, prop string) {
 		}
 	}
 	proc.Start()
-	if p.Resize > 0 && p.Resize != p.Workers {
+	if p.Resize > 0 && p.Resize != p.Workers && p.ResizeAt == 0 {
 		if p.Settle {
 			simrt.WaitQuiescent()
 		}
@@ -684,6 +694,15 @@ func casRun(p *casPlan, prop string) {
 	}
 
 	var wg simsync.WaitGroup
+	if p.Resize > 0 && p.Resize != p.Workers && p.ResizeAt > 0 {
+		wg.Add(1)
+		simrt.Go("resizer", func() {
+			defer wg.Done()
+			simtime.Sleep(simtime.Duration(p.ResizeAt))
+			simrt.Count("fault_pool_resized_with_events_in_flight")
+			proc.ThreadPool().SetWorkerCount(p.Resize, false)
+		})
+	}
 	for ci, roots := range p.Clients {
 		roots := roots
 		wg.Add(1)
